@@ -52,6 +52,13 @@ Ord2 == {<<O(r1, d1), O(r2, d2)>> : r1 \in {RefE(cS), RefIdx(1)}, r2 \in {RefE(c
 Ord3 == {<<O(RefE(cS), d1), O(RefE(cK), d2), O(RefE(cV), d3)>> : d1 \in BOOLEAN, d2 \in BOOLEAN, d3 \in BOOLEAN}
 QOrder == {Q(tg, NoE, <<>>, NoE, od, <<>>, ds, lm) :
               tg \in OrdTargets, od \in Ord1 \cup Ord2 \cup Ord3, ds \in BOOLEAN, lm \in {-1, 0, 2}}
+\* an output name that hides a table column of the same name: ORDER BY / GROUP BY by that name mean the OUTPUT
+QOrderHide == {Q(tg, NoE, <<>>, NoE, od, <<>>, FALSE, lm) :
+                  tg \in {<<T(Un("neg", cV), "v"), T(cP, "")>>, <<T(cK, "v"), T(cV, "k"), T(cP, "")>>, <<T(cP, ""), T(Bin("sub", Const(IntV(0)), cK), "k")>>},
+                  od \in {<<O(RefE(Col("v")), FALSE)>>, <<O(RefE(Col("v")), TRUE)>>, <<O(RefE(Col("k")), FALSE), O(RefE(Col("v")), TRUE)>>, <<O(RefE(Col("k")), TRUE)>>},
+                  lm \in {-1, 2}}
+QGroupHide == {Q(<<T(Un("isnull", cV), "k"), T(Agg("count", Star), "n")>>, NoE, gr, NoE, od, <<>>, FALSE, -1) :
+                  gr \in {<<RefE(Col("k"))>>, <<RefIdx(1)>>}, od \in {<<>>, <<O(RefE(Col("k")), TRUE)>>}}
 QDistinct == {Q(tg, NoE, <<>>, NoE, <<>>, <<>>, TRUE, lm) : tg \in {<<T(cK, ""), T(cS, "")>>, <<T(cS, "")>>, <<T(cK, ""), T(cV, "")>>},
                  lm \in {-1, 0, 1, 2, 9}}
           \cup {Q(<<T(cK, "")>>, NoE, <<>>, NoE, <<O(RefE(cV), d)>>, <<>>, TRUE, lm) : d \in BOOLEAN, lm \in {-1, 1, 2}}
@@ -201,11 +208,11 @@ QInvalid == QAggSites \cup {
 
 Queries ==
     CASE QuerySet = "plain" -> QPlain
-      [] QuerySet = "order" -> QOrder \cup QDistinct \cup QDistinctAgg
-      [] QuerySet = "group" -> QGroup1 \cup QGroup2 \cup QHaving \cup QHidden \cup QNoRows \cup QGroupDup \cup QAggPairs \cup QGroupNoAgg \cup QAggOnlyOrd
+      [] QuerySet = "order" -> QOrder \cup QDistinct \cup QDistinctAgg \cup QOrderHide
+      [] QuerySet = "group" -> QGroup1 \cup QGroup2 \cup QHaving \cup QHidden \cup QNoRows \cup QGroupDup \cup QAggPairs \cup QGroupNoAgg \cup QAggOnlyOrd \cup QGroupHide
       [] QuerySet = "pivot" -> QPivot \cup QPivotInvalid
-      [] QuerySet = "invalid" -> QInvalid
-      [] OTHER -> QPlain \cup QOrder \cup QDistinct \cup QDistinctAgg \cup QGroupDup \cup QAggPairs \cup QGroupNoAgg \cup QAggOnlyOrd \cup QGroup1 \cup QGroup2 \cup QHaving \cup QHidden \cup QNoRows \cup QPivot \cup QPivotInvalid \cup QInvalid
+      [] QuerySet = "invalid" -> QInvalid \cup QPivotInvalid
+      [] OTHER -> QPlain \cup QOrder \cup QOrderHide \cup QGroupHide \cup QDistinct \cup QDistinctAgg \cup QGroupDup \cup QAggPairs \cup QGroupNoAgg \cup QAggOnlyOrd \cup QGroup1 \cup QGroup2 \cup QHaving \cup QHidden \cup QNoRows \cup QPivot \cup QPivotInvalid \cup QInvalid
 
 -----------------------------------------------------------------------------
 VARIABLES code, q, phase, i, keys, groups, rows, passhi, out, table, cq
